@@ -7,6 +7,7 @@ import Oracle.C09
 import Oracle.C13
 import Oracle.C14
 import Oracle.C15
+import Oracle.C15Usable
 import Oracle.C11b
 import Oracle.C19
 import Oracle.C04
@@ -32,7 +33,7 @@ def dispatch (op : String) (args res : List String) : String :=
     let handlers : List (String → List String → List String → Option String) :=
       [Oracle.C01.handle, Oracle.C02.handle, Oracle.C11.handle, Oracle.C06a.handle, Oracle.C09.handle,
        Oracle.C13.handle, Oracle.C14.handle, Oracle.C15.handle, Oracle.C11b.handle, Oracle.C19.handle, Oracle.C04.handle, Oracle.C03.handle, Oracle.C07.handle,
-       Oracle.C01pt.handle, Oracle.C12.handle, Oracle.C08.handle, Oracle.C05.handle, Oracle.C10.handle, Oracle.C17.handle, Oracle.C18.handle, Oracle.C20.handle, Oracle.C06pc.handle, Oracle.C04Build.handle, Oracle.C07Walk.handle]
+       Oracle.C01pt.handle, Oracle.C12.handle, Oracle.C08.handle, Oracle.C05.handle, Oracle.C10.handle, Oracle.C17.handle, Oracle.C18.handle, Oracle.C20.handle, Oracle.C06pc.handle, Oracle.C04Build.handle, Oracle.C07Walk.handle, Oracle.C15Usable.handle]
     match handlers.findSome? (fun h => h op args res) with
     | some v => v
     | none => "bad unknown-op-or-args " ++ op
